@@ -163,9 +163,21 @@ var coefShapes = []string{"9999999999999999", "1", "1000000000000001", "49999999
 	"1234567890123456", "3333333333333333", "6666666666666667", "1999999999999999", "9999999999999998", "10000001", "7"}
 
 func genCoefDigits(r *rand.Rand) string {
-	switch r.IntN(5) {
+	switch r.IntN(6) {
 	case 0:
 		return coefShapes[r.IntN(len(coefShapes))]
+	case 5: // around binary boundaries (the division works on 32 bit halves of the 64 bit coefficient)
+		for {
+			var v int64
+			if r.IntN(2) == 0 {
+				v = int64(1)<<(20+r.IntN(34)) + int64(r.IntN(7)) - 3
+			} else {
+				v = (int64(1)<<32)*int64(1+r.IntN(1<<21)) + int64(r.IntN(7)) - 3
+			}
+			if v >= 1 && v <= 9999999999999999 {
+				return strconv.FormatInt(v, 10)
+			}
+		}
 	case 1: // few digits
 		return strconv.Itoa(1 + r.IntN(9999))
 	case 2: // nines and zeros
